@@ -21,6 +21,95 @@ theorem take_drop_append_drop (l : Bytes) (a b : Nat) (hab : a ≤ b) :
     rw [List.drop_drop]; congr 1; omega
   rw [this, List.take_append_drop]
 
+theorem isBoundary_le_length (l : Bytes) (i : Nat) (h : isBoundary l i = true) :
+    i ≤ l.length := by
+  apply Classical.byContradiction
+  intro hn
+  have hlt : l.length < i := by omega
+  have hnone : l[i]? = none := List.getElem?_eq_none (by omega)
+  have h0 : (i == 0) = false := by
+    rw [beq_eq_false_iff_ne]; omega
+  have h1 : (i == l.length) = false := by
+    rw [beq_eq_false_iff_ne]; omega
+  simp only [isBoundary, hnone, h0, h1, Bool.or_false] at h
+  exact Bool.noConfusion h
+
+/-- A valid span is never skipped, whatever the value of the repair flag. -/
+theorem spanSkipped_false_of_valid (line : Bytes) (curr a b : Nat) (hca : curr ≤ a) (hab : a ≤ b)
+    (ha : isBoundary line a = true) (hb : isBoundary line b = true) :
+    spanSkipped line curr a b = false := by
+  have h1 : decide (a < curr) = false := decide_eq_false (by omega)
+  have h2 : decide (b < a) = false := decide_eq_false (by omega)
+  unfold spanSkipped
+  rw [h1, h2, ha, hb]
+  simp
+
+/-- With the repair flag on, a span that is not skipped is valid. -/
+theorem valid_of_spanSkipped_false (hfix : Generated.Grep.fixSectionsGuard = true)
+    (line : Bytes) (curr a b : Nat) (h : spanSkipped line curr a b = false) :
+    curr ≤ a ∧ a ≤ b ∧ isBoundary line a = true ∧ isBoundary line b = true := by
+  unfold spanSkipped at h
+  rw [hfix, Bool.true_and] at h
+  simp only [Bool.or_eq_false_iff, decide_eq_false_iff_not, Bool.not_eq_false'] at h
+  obtain ⟨⟨⟨h1, h2⟩, h3⟩, h4⟩ := h
+  exact ⟨by omega, by omega, h3, h4⟩
+
+theorem sectionsFrom_nil_ok (line : Bytes) (curr : Nat)
+    (hc : curr ≤ line.length) (hb : isBoundary line curr = true) :
+    ∃ secs, sectionsFrom line curr [] = .ok secs ∧ secsText secs = line.drop curr ∧
+      matchSpans curr secs = [] := by
+  unfold sectionsFrom
+  by_cases hlt : curr < line.length
+  · rw [if_pos hlt, slice_ok line curr line.length hc (Nat.le_refl _) hb (isBoundary_length _)]
+    refine ⟨_, rfl, ?_, ?_⟩
+    · simp only [secsText, List.flatMap_cons, List.flatMap_nil, List.append_nil]
+      exact List.take_of_length_le (by simp [List.length_drop])
+    · simp [matchSpans]
+  · rw [if_neg hlt]
+    refine ⟨[], rfl, ?_, rfl⟩
+    have : curr = line.length := by omega
+    simp [secsText, this]
+
+/-- One turn of the loop on a valid span, given the result of the rest of the loop. -/
+theorem sectionsFrom_cons_ok (line : Bytes) (curr a b : Nat) (rest : List (Nat × Nat))
+    (tl : List (Bool × Bytes))
+    (hb : isBoundary line curr = true)
+    (hca : curr ≤ a) (hab : a ≤ b) (hbl : b ≤ line.length)
+    (hba : isBoundary line a = true) (hbb : isBoundary line b = true)
+    (htl : sectionsFrom line b rest = .ok tl) (htxt : secsText tl = line.drop b) :
+    ∃ secs, sectionsFrom line curr ((a, b) :: rest) = .ok secs ∧
+      secsText secs = line.drop curr ∧ matchSpans curr secs = (a, b) :: matchSpans b tl := by
+  unfold sectionsFrom
+  rw [spanSkipped_false_of_valid line curr a b hca hab hba hbb]
+  simp only [Bool.false_eq_true, if_false]
+  rw [slice_ok line a b hab hbl hba hbb, htl]
+  by_cases hgt : a > curr
+  · rw [if_pos hgt, slice_ok line curr a (by omega) (by omega) hb hba]
+    refine ⟨_, rfl, ?_, ?_⟩
+    · simp only [secsText, List.flatMap_cons,
+        List.cons_append, List.nil_append] at htxt ⊢
+      rw [htxt, take_drop_append_drop line a b hab,
+        take_drop_append_drop line curr a (by omega)]
+    · have h1 : ((line.drop curr).take (a - curr)).length = a - curr := by
+        simp [List.length_take, List.length_drop]; omega
+      have h2 : ((line.drop a).take (b - a)).length = b - a := by
+        simp [List.length_take, List.length_drop]; omega
+      simp only [List.cons_append, List.nil_append, matchSpans, h1, h2]
+      have e1 : curr + (a - curr) = a := by omega
+      have e2 : a + (b - a) = b := by omega
+      simp [e1, e2]
+  · rw [if_neg hgt]
+    have hac : a = curr := by omega
+    subst hac
+    refine ⟨_, rfl, ?_, ?_⟩
+    · simp only [secsText, List.flatMap_cons, List.nil_append] at htxt ⊢
+      rw [htxt, take_drop_append_drop line a b hab]
+    · have h2 : ((line.drop a).take (b - a)).length = b - a := by
+        simp [List.length_take, List.length_drop]; omega
+      simp only [List.nil_append, matchSpans, h2]
+      have e2 : a + (b - a) = b := by omega
+      simp [e2]
+
 /-- For sorted, disjoint, in-range, boundary-aligned spans starting at or after the
 (boundary) offset `curr`, the loop does not panic, the sections concatenate to the rest of
 the line and the match-styled sections sit exactly at the spans. -/
@@ -30,51 +119,15 @@ theorem sectionsFrom_ok (line : Bytes) (curr : Nat) (subs : List (Nat × Nat))
     ∃ secs, sectionsFrom line curr subs = .ok secs ∧ secsText secs = line.drop curr ∧
       matchSpans curr secs = subs := by
   induction subs generalizing curr with
-  | nil =>
-    unfold sectionsFrom
-    by_cases hlt : curr < line.length
-    · rw [if_pos hlt, slice_ok line curr line.length hc (Nat.le_refl _) hb (isBoundary_length _)]
-      refine ⟨_, rfl, ?_, ?_⟩
-      · simp only [secsText, List.flatMap_cons, List.flatMap_nil, List.append_nil]
-        exact List.take_of_length_le (by simp [List.length_drop])
-      · simp [matchSpans]
-    · rw [if_neg hlt]
-      refine ⟨[], rfl, ?_, rfl⟩
-      have : curr = line.length := by omega
-      simp [secsText, this]
+  | nil => exact sectionsFrom_nil_ok line curr hc hb
   | cons s rest ih =>
     obtain ⟨a, b⟩ := s
     simp only [spansOk, Bool.and_eq_true, decide_eq_true_eq] at h
     obtain ⟨⟨⟨⟨⟨hca, hab⟩, hbl⟩, hba⟩, hbb⟩, hrest⟩ := h
     obtain ⟨tl, htl, htxt, hsp⟩ := ih b hbl hbb hrest
-    unfold sectionsFrom
-    rw [slice_ok line a b hab hbl hba hbb, htl]
-    by_cases hgt : a > curr
-    · rw [if_pos hgt, slice_ok line curr a (by omega) (by omega) hb hba]
-      refine ⟨_, rfl, ?_, ?_⟩
-      · simp only [secsText, List.flatMap_cons,
-          List.cons_append, List.nil_append] at htxt ⊢
-        rw [htxt, take_drop_append_drop line a b hab,
-          take_drop_append_drop line curr a (by omega)]
-      · have h1 : ((line.drop curr).take (a - curr)).length = a - curr := by
-          simp [List.length_take, List.length_drop]; omega
-        have h2 : ((line.drop a).take (b - a)).length = b - a := by
-          simp [List.length_take, List.length_drop]; omega
-        simp only [List.cons_append, List.nil_append, matchSpans, h1, h2]
-        have e1 : curr + (a - curr) = a := by omega
-        have e2 : a + (b - a) = b := by omega
-        simp [e1, e2, hsp]
-    · rw [if_neg hgt]
-      have hac : a = curr := by omega
-      subst hac
-      refine ⟨_, rfl, ?_, ?_⟩
-      · simp only [secsText, List.flatMap_cons, List.nil_append] at htxt ⊢
-        rw [htxt, take_drop_append_drop line a b hab]
-      · have h2 : ((line.drop a).take (b - a)).length = b - a := by
-          simp [List.length_take, List.length_drop]; omega
-        simp only [List.nil_append, matchSpans, h2]
-        have e2 : a + (b - a) = b := by omega
-        simp [e2, hsp]
+    obtain ⟨secs, h1, h2, h3⟩ :=
+      sectionsFrom_cons_ok line curr a b rest tl hb hca hab hbl hba hbb htl htxt
+    exact ⟨secs, h1, h2, by rw [h3, hsp]⟩
 
 theorem makeStyleSections_ok (line : Bytes) (subs : List (Nat × Nat))
     (h : spansOk line 0 subs = true) :
@@ -200,5 +253,39 @@ theorem expandTabs_leading (w : Nat) (ind rest : Bytes) (subs : List (Nat × Nat
     simp only [List.all_cons, Bool.and_eq_true, decide_eq_true_eq] at hsub
     simp only [List.map_cons, List.cons.injEq]
     exact ⟨sub_shift ind (expandB w ind) rest hpe a b hsub.1, ih hsub.2⟩
+
+/-- With the submatch guard of the repaired `make_style_sections` the loop cannot panic,
+whatever the submatches are, and the sections still concatenate to the rest of the line. -/
+theorem sectionsFrom_total (hfix : Generated.Grep.fixSectionsGuard = true)
+    (line : Bytes) (curr : Nat) (subs : List (Nat × Nat))
+    (hc : curr ≤ line.length) (hb : isBoundary line curr = true) :
+    ∃ secs, sectionsFrom line curr subs = .ok secs ∧ secsText secs = line.drop curr := by
+  induction subs generalizing curr with
+  | nil =>
+    obtain ⟨secs, h1, h2, _⟩ := sectionsFrom_nil_ok line curr hc hb
+    exact ⟨secs, h1, h2⟩
+  | cons s rest ih =>
+    obtain ⟨a, b⟩ := s
+    cases hsk : spanSkipped line curr a b with
+    | true =>
+      obtain ⟨secs, h1, h2⟩ := ih curr hc hb
+      refine ⟨secs, ?_, h2⟩
+      rw [← h1]
+      conv => lhs; unfold sectionsFrom
+      rw [hsk]
+      rfl
+    | false =>
+      obtain ⟨hca, hab, hba, hbb⟩ := valid_of_spanSkipped_false hfix line curr a b hsk
+      have hbl := isBoundary_le_length line b hbb
+      obtain ⟨tl, htl, htxt⟩ := ih b hbl hbb
+      obtain ⟨secs, h1, h2, _⟩ :=
+        sectionsFrom_cons_ok line curr a b rest tl hb hca hab hbl hba hbb htl htxt
+      exact ⟨secs, h1, h2⟩
+
+theorem makeStyleSections_total (hfix : Generated.Grep.fixSectionsGuard = true)
+    (line : Bytes) (subs : List (Nat × Nat)) :
+    ∃ secs, makeStyleSections line subs = .ok secs ∧ secsText secs = line := by
+  have := sectionsFrom_total hfix line 0 subs (Nat.zero_le _) (isBoundary_zero _)
+  simpa [makeStyleSections] using this
 
 end Grep
